@@ -22,6 +22,8 @@
                                                                                     default: wg.Done(); return } } } }
      run(r):      defer CatchPanic(); if err := r.Run(); err != nil { log }
      Shutdown():  guard.Lock(); ok := CAS(Running,Shutdown); guard.Unlock(); if !ok {return};
+                  (any number of goroutines may call it: [Shut] is the caller whose steps after the CAS
+                   are followed - whichever wins the CAS -, [ShutOther]/[ShutOtherGo] are all the others)
                   close(done); wg.Wait(); close(queue); Set(Terminated)
    guard is a sync.RWMutex: Lock() first announces the writer (from then on RLock() blocks) and then
    waits until the readers that hold the lock have released it. *)
@@ -60,11 +62,12 @@ Record st := mk {
   ran : list nat;          (* ghost: tasks whose Run() finished, in order *)
   bounced : list nat;      (* ghost: tasks of parked senders thrown out by close(queue) *)
   errs : list nat;         (* tasks whose error was logged *)
-  recovered : list nat     (* tasks whose panic was caught *)
+  recovered : list nat;    (* tasks whose panic was caught *)
+  pendw : nat              (* further Shutdown callers that have announced guard.Lock() and wait for it *)
 }.
 
 Definition init (n c : nat) : st :=
-  mk PInit (Nat.max 1 n) c [] false false [] (fun _ => SNone) ShIdle 0 [] [] [] [] [] [].
+  mk PInit (Nat.max 1 n) c [] false false [] (fun _ => SNone) ShIdle 0 [] [] [] [] [] [] 0.
 
 Definition upd (f : nat -> sst) (i : nat) (x : sst) : nat -> sst :=
   fun k => if Nat.eqb k i then x else f k.
@@ -96,33 +99,36 @@ Definition phase_eqb (a b : phase) : bool :=
 (* field setters *)
 Definition set_sub (s : st) (t : nat) (x : sst) : st :=
   mk (ph s) (nw s) (cap s) (queue s) (closed s) (dn s) (ws s) (upd (subs s) t x) (sh s) (next s)
-     (entered s) (early s) (ran s) (bounced s) (errs s) (recovered s).
+     (entered s) (early s) (ran s) (bounced s) (errs s) (recovered s) (pendw s).
 Definition set_ph (s : st) (p : phase) : st :=
   mk p (nw s) (cap s) (queue s) (closed s) (dn s) (ws s) (subs s) (sh s) (next s)
-     (entered s) (early s) (ran s) (bounced s) (errs s) (recovered s).
+     (entered s) (early s) (ran s) (bounced s) (errs s) (recovered s) (pendw s).
 Definition set_ws (s : st) (l : list wst) : st :=
   mk (ph s) (nw s) (cap s) (queue s) (closed s) (dn s) l (subs s) (sh s) (next s)
-     (entered s) (early s) (ran s) (bounced s) (errs s) (recovered s).
+     (entered s) (early s) (ran s) (bounced s) (errs s) (recovered s) (pendw s).
 Definition set_queue (s : st) (q : list nat) : st :=
   mk (ph s) (nw s) (cap s) q (closed s) (dn s) (ws s) (subs s) (sh s) (next s)
-     (entered s) (early s) (ran s) (bounced s) (errs s) (recovered s).
+     (entered s) (early s) (ran s) (bounced s) (errs s) (recovered s) (pendw s).
 Definition set_sh (s : st) (x : shst) : st :=
   mk (ph s) (nw s) (cap s) (queue s) (closed s) (dn s) (ws s) (subs s) x (next s)
-     (entered s) (early s) (ran s) (bounced s) (errs s) (recovered s).
+     (entered s) (early s) (ran s) (bounced s) (errs s) (recovered s) (pendw s).
+Definition set_pendw (s : st) (n : nat) : st :=
+  mk (ph s) (nw s) (cap s) (queue s) (closed s) (dn s) (ws s) (subs s) (sh s) (next s)
+     (entered s) (early s) (ran s) (bounced s) (errs s) (recovered s) n.
 Definition set_dn (s : st) : st :=
   mk (ph s) (nw s) (cap s) (queue s) (closed s) true (ws s) (subs s) (sh s) (next s)
-     (entered s) (early s) (ran s) (bounced s) (errs s) (recovered s).
+     (entered s) (early s) (ran s) (bounced s) (errs s) (recovered s) (pendw s).
 
 (* the send: the value joins the logical queue *)
 Definition park (s : st) (t : nat) : st :=
   mk (ph s) (nw s) (cap s) (queue s ++ [t]) (closed s) (dn s) (ws s) (upd (subs s) t SParked) (sh s) (next s)
      (entered s ++ [t]) (if phase_eqb (ph s) PRunning then t :: early s else early s)
-     (ran s) (bounced s) (errs s) (recovered s).
+     (ran s) (bounced s) (errs s) (recovered s) (pendw s).
 
 (* close(queue): the buffer keeps its first cap values, parked senders panic *)
 Definition close_queue (s : st) : st :=
   mk (ph s) (nw s) (cap s) (firstn (cap s) (queue s)) true (dn s) (ws s) (subs s) ShSetTerm (next s)
-     (entered s) (early s) (ran s) (bounced s ++ skipn (cap s) (queue s)) (errs s) (recovered s).
+     (entered s) (early s) (ran s) (bounced s ++ skipn (cap s) (queue s)) (errs s) (recovered s) (pendw s).
 
 (* run(r) returns: the task has run; an error is logged, a panic is caught by CatchPanic;
    in every case the worker goes on (to [w']) *)
@@ -130,7 +136,7 @@ Definition finish (o : nat -> outcome) (s : st) (j t : nat) (w' : wst) : st :=
   mk (ph s) (nw s) (cap s) (queue s) (closed s) (dn s) (setw j w' (ws s)) (subs s) (sh s) (next s)
      (entered s) (early s) (ran s ++ [t]) (bounced s)
      (match o t with OErr => errs s ++ [t] | _ => errs s end)
-     (match o t with OPanic => recovered s ++ [t] | _ => recovered s end).
+     (match o t with OPanic => recovered s ++ [t] | _ => recovered s end) (pendw s).
 
 Inductive choice :=
 | Call                    (* a goroutine calls Execute with a fresh task *)
@@ -140,13 +146,15 @@ Inductive choice :=
 | Finish (j : nat)        (* the task worker j is running returns / panics *)
 | DrainTake (j : nat)     (* worker j, draining, finds a task *)
 | DrainEmpty (j : nat)    (* worker j, draining, finds the queue empty and exits *)
-| Shut.                   (* the Shutdown caller takes its next step *)
+| Shut                    (* the Shutdown caller takes its next step *)
+| ShutOther               (* one more goroutine calls Shutdown: announces guard.Lock() *)
+| ShutOtherGo.            (* one of those gets the lock: CAS (it may be the one that wins), Unlock *)
 
 Definition step (o : nat -> outcome) (s : st) (c : choice) : option st :=
   match c with
   | Call =>
       Some (mk (ph s) (nw s) (cap s) (queue s) (closed s) (dn s) (ws s) (upd (subs s) (next s) SGet) (sh s)
-               (S (next s)) (entered s) (early s) (ran s) (bounced s) (errs s) (recovered s))
+               (S (next s)) (entered s) (early s) (ran s) (bounced s) (errs s) (recovered s) (pendw s))
   | Sub t =>
       match subs s t with
       | SNone | SRet _ => None
@@ -163,7 +171,8 @@ Definition step (o : nat -> outcome) (s : st) (c : choice) : option st :=
       | SSpawn => Some (set_sub (set_ws s (repeat WIdle (nw s))) t SSetRun)
       | SSetRun => Some (set_sub (set_ph s PRunning) t SCheck)
       | SCheck =>
-          if is_locking (sh s) then None                      (* RLock() blocks: a writer is waiting *)
+          if is_locking (sh s) || negb (Nat.eqb (pendw s) 0)
+          then None                                           (* RLock() blocks: a writer is waiting *)
           else if phase_eqb (ph s) PRunning then Some (set_sub s t SPark)
           else Some (set_sub s t (SRet RErr))
       | SPark =>
@@ -213,6 +222,20 @@ Definition step (o : nat -> outcome) (s : st) (c : choice) : option st :=
       | ShCloseQ => Some (close_queue s)
       | ShSetTerm => Some (set_sh (set_ph s PTerminated) ShDone)
       | ShDone => Some s                              (* a later Shutdown call: CAS fails *)
+      end
+  | ShutOther => Some (set_pendw s (S (pendw s)))
+  | ShutOtherGo =>
+      match pendw s with
+      | O => None
+      | S p =>
+          if forallb (fun t => negb (is_reader (subs s t))) (seq 0 (next s)) then
+            if phase_eqb (ph s) PRunning
+            then (* its CAS succeeds: it is the call that shuts the executor down; the caller that was
+                    modelled as "the" Shutdown thread, if it is waiting for the lock too, becomes one of
+                    the others *)
+                 Some (set_pendw (set_sh (set_ph s PShutdown) ShClose) (if is_locking (sh s) then S p else p))
+            else Some (set_pendw s p)                 (* CAS fails: it returns *)
+          else None
       end
   end.
 
